@@ -115,16 +115,18 @@ class Ctx:
     def ev(self, name, n=1):
         self.events[name] += n
 
-    def violate(self, mech, **detail):
+    def violate(self, mech, wit=None, **detail):
         # keep at most a few per case: the first witness is what matters
+        if wit:
+            detail = {**wit, **detail}
         if len(self.violations) < 6:
             self.violations.append({"mech": mech, "detail": jsonable(detail)})
         else:
             self.events["violations_suppressed_in_case"] += 1
 
-    def check(self, cond, mech, **detail) -> bool:
+    def check(self, cond, mech, wit=None, **detail) -> bool:
         if not cond:
-            self.violate(mech, **detail)
+            self.violate(mech, wit, **detail)
         return bool(cond)
 
     def mark(self, sig, nontrivial=True, sample=None):
